@@ -106,6 +106,11 @@ theorem alnum_class (c : UInt8) (h : isAlnum c = true) :
   apply u8_forall
   decide +kernel
 
+theorem alnum_lt (c : UInt8) (h : isAlnum c = true) : c < 128 := by
+  revert c
+  apply u8_forall
+  decide +kernel
+
 theorem alnum_of_brand (c : UInt8) (h : (48 ≤ c ∧ c ≤ 57) ∨ (65 ≤ c ∧ c ≤ 90) ∨ (97 ≤ c ∧ c ≤ 122)) :
     isAlnum c = true := by
   revert c
@@ -569,8 +574,9 @@ theorem collapseAux_filter (b : Bytes) (hb : ∀ c ∈ b, isAlnum c = true ∨ c
 def rtrim (w : Bytes) : Bytes := (w.reverse.dropWhile isTrimSpace).reverse
 
 theorem trim_tail (a w : Bytes) (h1 : ∀ c ∈ a.head?, isTrimSpace c = false) (h2 : ∀ c ∈ a.getLast?, isTrimSpace c = false)
-    (hne : a ≠ []) : trimSpace (a ++ w) = a ++ rtrim w := by
-  unfold trimSpace rtrim
+    (hne : a ≠ []) (hasc : ∀ c ∈ a ++ w, c < 128) : trimSpace (a ++ w) = a ++ rtrim w := by
+  rw [trimSpace_eq_ascii _ hasc]
+  unfold trimSpaceAscii rtrim
   rw [dropWhile_id (a ++ w) (by
     cases a with
     | nil => exact absurd rfl hne
